@@ -33,6 +33,15 @@ CLAIMED = {
             "the model, collisions are violations); 3000+ random sets of 2-4 packages are re-derived by the spec.",
             "Trusted: TLC; wit-parser's acceptance of package names/versions defines validity.",
             "5 C27"),
+    "C34": ("model_checking",
+            "TLA+ spec TestConfig.tla; TLC enumerates all files of <=4 (thorough 5) lines over 17 line kinds with the "
+            "expected configuration; each replayed through the real parse_test_config under 3 markers x 2 spellings; "
+            "random files validated by the spec",
+            "The spec defines the configuration as a function of the leading marker block only; TLC checks the spec's own "
+            "sanity (only the leading block matters, string form == list form) and emits every bounded file; the real "
+            "parser (compiled from /repo/crates/test/src/config.rs) must return the spec's configuration or error.",
+            "Trusted: TLC, the toml crate, the rendering of abstract line kinds to concrete text.",
+            "5 C34"),
 }
 
 PENDING_REASON = "check not built yet in this session (planned, see DESIGN.md section 5); not claimed until it runs"
